@@ -582,6 +582,135 @@ func runFaults(t *testing.T, run *vt.Run, c vt.CaseID, fc faultCase) {
 	})
 }
 
+// ---- ring wiped while a basic lifecycler remembers a state other than ACTIVE -------------------
+
+type stateWipe struct {
+	State  string        `json:"remembered_state"` // PENDING | JOINING | LEAVING | JOINING-by-request
+	Phase  string        `json:"phase"`            // observing (service Starting) | running | stopping
+	WipeAt time.Duration `json:"wipe_after_phase_start"`
+	Twice  bool          `json:"wiped_again_one_period_later"`
+}
+
+func runStateWipe(t *testing.T, run *vt.Run, c vt.CaseID, sw stateWipe) {
+	synctest.Test(t, func(t *testing.T) {
+		st := recstore.New(ring.GetCodec())
+		st.RecordGets = false
+		cfg := lcsim.Cfg{ID: "victim-1", Kind: "basic", NumTokens: 4, Heartbeat: 5 * time.Second, Zone: "z0", Seed: 7, Unregister: false, RegisterState: ring.ACTIVE}
+		want := ring.ACTIVE
+		switch sw.State {
+		case "PENDING":
+			cfg.RegisterState, want = ring.PENDING, ring.PENDING
+		case "JOINING":
+			cfg.RegisterState, want = ring.JOINING, ring.JOINING
+		case "JOINING-by-request":
+			cfg.RegisterState, want = ring.PENDING, ring.JOINING
+		case "LEAVING":
+			cfg.LeaveOnStop, cfg.FinalSleep, want = true, 40*time.Second, ring.LEAVING
+		}
+		if sw.Phase == "observing" {
+			cfg.Observe = 30 * time.Second
+		}
+		other, _ := lcsim.New(st, lcsim.Cfg{ID: "other-2", Kind: "full", NumTokens: 4, Heartbeat: 5 * time.Second, Zone: "z1", Seed: 9}, 1)
+		_ = other.Start()
+		v, err := lcsim.New(st, cfg, 1)
+		if err != nil {
+			run.Inconclusive(err.Error())
+			return
+		}
+		var journal []string
+		viol := func(sig, what string, extra map[string]any) {
+			d := map[string]any{"case": sw, "journal": journal}
+			for k, x := range extra {
+				d[k] = x
+			}
+			run.Violation(c, "basic/state-wipe/"+sig, what, d)
+		}
+		defer func() {
+			v.Stop()
+			other.Stop()
+			synctest.Wait()
+			time.Sleep(3 * time.Minute)
+			synctest.Wait()
+			st.Release()
+		}()
+		read := func() (ring.InstanceDesc, bool) {
+			x, _ := st.Client("harness-read").Get(context.Background(), lcsim.Key)
+			e, ok := ring.GetOrCreateRingDesc(x).Ingesters["victim-1"]
+			return e, ok
+		}
+		_ = v.Start()
+		time.Sleep(2 * time.Second)
+		synctest.Wait()
+		switch sw.Phase {
+		case "running", "stopping":
+			time.Sleep(10 * time.Second)
+			synctest.Wait()
+			if v.Svc().State() != services.Running {
+				run.Inconclusive("victim not running: " + v.Svc().State().String())
+				return
+			}
+		}
+		if sw.State == "JOINING-by-request" && sw.Phase != "observing" {
+			if err := v.Basic.ChangeState(context.Background(), ring.JOINING); err != nil {
+				run.Inconclusive("ChangeState: " + err.Error())
+				return
+			}
+			journal = append(journal, "application asked for JOINING")
+		} else if sw.State == "JOINING-by-request" {
+			want = ring.PENDING
+		}
+		if sw.Phase == "stopping" {
+			v.Stop()
+			time.Sleep(time.Second)
+			synctest.Wait()
+			journal = append(journal, "victim asked to stop (its stopping work takes 40s)")
+		}
+		before, ok := read()
+		if !ok || before.State != want || len(before.Tokens) != 4 || v.Basic.GetState() != want {
+			run.Inconclusive(fmt.Sprintf("victim not in the remembered state %v before the wipe: present=%v %+v (lifecycler says %v)", want, ok, before, v.Basic.GetState()))
+			return
+		}
+		time.Sleep(sw.WipeAt)
+		synctest.Wait()
+		wipedAt := time.Now()
+		st.Wipe(lcsim.Key)
+		journal = append(journal, fmt.Sprintf("ring key wiped %v into phase %s", sw.WipeAt, sw.Phase))
+		if sw.Twice {
+			time.Sleep(cfg.Heartbeat + time.Second)
+			synctest.Wait()
+			wipedAt = time.Now()
+			st.Wipe(lcsim.Key)
+			journal = append(journal, "ring key wiped again")
+		}
+		time.Sleep(2*cfg.Heartbeat + time.Second)
+		synctest.Wait()
+		after, ok := read()
+		det := map[string]any{"before": fmt.Sprintf("%+v", before), "after": fmt.Sprintf("present=%v %+v", ok, after), "lifecycler_state": v.Basic.GetState().String()}
+		run.EvalH(vt.Hash64(fmt.Sprintf("statewipe %+v", sw)), true)
+		run.Count("state_wipes_judged", 1)
+		if !ok {
+			viol("not-re-registered", "two heartbeats after the wipe the entry is missing", det)
+			return
+		}
+		if after.State != want {
+			viol("state-not-remembered", fmt.Sprintf("re-registered as %v, remembered state is %v", after.State, want), det)
+		}
+		if v.Basic.GetState() != want {
+			viol("lifecycler-forgot-state", fmt.Sprintf("the lifecycler now reports %v, its state before the wipe was %v", v.Basic.GetState(), want), det)
+		}
+		if tokensStr(after.Tokens) != tokensStr(before.Tokens) {
+			viol("tokens-not-remembered", fmt.Sprintf("tokens %v, remembered %v", after.Tokens, before.Tokens), det)
+		}
+		if after.RegisteredTimestamp < wipedAt.Unix() {
+			viol("registration-time-not-fresh", fmt.Sprintf("re-registered after a wipe with registration time %d (wipe at %d)", after.RegisteredTimestamp, wipedAt.Unix()), det)
+		}
+		x, _ := st.Client("harness-read").Get(context.Background(), lcsim.Key)
+		if oe, ok := ring.GetOrCreateRingDesc(x).Ingesters["other-2"]; ok && len(oe.Tokens) != 4 {
+			viol("bystander-damaged", fmt.Sprintf("bystander entry after the wipe: %+v", oe), nil)
+		}
+	})
+}
+
 // ---- store faults by call ordinal: the k-th .. (k+l-1)-th CAS call of the victim is rejected ---------
 
 type callFault struct {
@@ -805,6 +934,26 @@ func TestC09(t *testing.T) {
 	run.ForEachT(t, "faults", len(fcs), func(t *testing.T, c vt.CaseID, rng *rand.Rand, s *vt.Slot) {
 		s.Enter(c, "crash/faults")
 		runFaults(t, run, c, fcs[c.Idx])
+		s.Leave()
+	})
+	// ring wiped while a basic lifecycler remembers PENDING / JOINING / LEAVING
+	var sws []stateWipe
+	for _, stt := range []string{"ACTIVE", "PENDING", "JOINING", "JOINING-by-request", "LEAVING"} {
+		for _, ph := range []string{"observing", "running", "stopping"} {
+			if (stt == "LEAVING") != (ph == "stopping") {
+				continue
+			}
+			for _, at := range []time.Duration{0, 2 * time.Second, 6 * time.Second, 11 * time.Second} {
+				for _, twice := range []bool{false, true} {
+					sws = append(sws, stateWipe{State: stt, Phase: ph, WipeAt: at, Twice: twice})
+				}
+			}
+		}
+	}
+	run.SetExtra("state_wipe_cases_enumerated", len(sws))
+	run.ForEachT(t, "state-wipes", len(sws), func(t *testing.T, c vt.CaseID, rng *rand.Rand, s *vt.Slot) {
+		s.Enter(c, "crash/state-wipes")
+		runStateWipe(t, run, c, sws[c.Idx])
 		s.Leave()
 	})
 	// rejected CAS calls by ordinal, while joining and while leaving
